@@ -149,6 +149,12 @@ func (rule Properties) AsRewriteRule(pkg string) (builder.RewriteRule, error) {
 		return nil, err
 	}
 
+	for _, property := range rule.Set {
+		if err := property.Type.Validate(); err != nil {
+			return nil, fmt.Errorf("properties: property '%s': %w", property.Name, err)
+		}
+	}
+
 	return builder.Properties(
 		selector,
 		rule.Set,
@@ -223,6 +229,20 @@ func (rule AddOption) AsRewriteRule(pkg string) (builder.RewriteRule, error) {
 		return nil, err
 	}
 
+	for _, arg := range rule.Option.Arguments {
+		if err := arg.Type.Validate(); err != nil {
+			return nil, fmt.Errorf("add_option: argument '%s': %w", arg.Name, err)
+		}
+	}
+	for _, assignment := range rule.Option.Assignments {
+		if assignment.Value.Argument == nil {
+			continue
+		}
+		if err := assignment.Value.Argument.Type.Validate(); err != nil {
+			return nil, fmt.Errorf("add_option: argument '%s': %w", assignment.Value.Argument.Name, err)
+		}
+	}
+
 	return builder.AddOption(selector, rule.Option), nil
 }
 
@@ -235,6 +255,12 @@ func (rule AddFactory) AsRewriteRule(pkg string) (builder.RewriteRule, error) {
 	selector, err := rule.AsSelector(pkg)
 	if err != nil {
 		return nil, err
+	}
+
+	for _, arg := range rule.Factory.Args {
+		if err := arg.Type.Validate(); err != nil {
+			return nil, fmt.Errorf("add_factory: argument '%s': %w", arg.Name, err)
+		}
 	}
 
 	return builder.AddFactory(selector, rule.Factory), nil
